@@ -160,10 +160,23 @@ class RefState(object):
 
     def resolve_default(self, s):
         while s is not None:
+            if self.sc[s].default is AMBIG:
+                raise NotEnabled("default-unknown")
             if self.sc[s].default is not None:
                 return self.sc[s].default
             s = self.parent(s)
         raise NotEnabled("no-default")
+
+    def received_foreign_records(self, s):
+        """records built elsewhere were re-created in scope s (add_record/update): their
+        names carry prefixes chosen by the implementation, which scope s may now bind
+        implicitly - unbound prefixes and an unset default become undefined in the model."""
+        sc = self.sc[s]
+        for p in ALL_PREFIXES:
+            if p not in sc.bind:
+                sc.bind[p] = AMBIG
+        if sc.default is None:
+            sc.default = AMBIG
 
     def covered(self, s, uri):
         """can a full URI be turned into a qualified name in scope s (some visible
@@ -174,7 +187,7 @@ class RefState(object):
         for p, u in sc0.bind.items():
             if u is not AMBIG and uri.startswith(u):
                 own = True
-        if sc0.default is not None and self.default_touched.get(s0) and uri.startswith(sc0.default):
+        if sc0.default not in (None, AMBIG) and self.default_touched.get(s0) and uri.startswith(sc0.default):
             own = True
         if own:
             return True
@@ -183,7 +196,7 @@ class RefState(object):
             return False
         scp = self.sc[par]
         cands = [p for p, u in scp.bind.items() if u is not AMBIG and uri.startswith(u)]
-        dflt = scp.default is not None and self.default_touched.get(par) and uri.startswith(scp.default)
+        dflt = scp.default not in (None, AMBIG) and self.default_touched.get(par) and uri.startswith(scp.default)
         if not cands and not dflt:
             return False
         # the implementation compacts with one of the parent's namespaces and thereby uses
@@ -221,6 +234,10 @@ class RefState(object):
             if prefix == "":
                 if sc.default is None:
                     sc.default = U[urikey]
+                elif sc.default is AMBIG:
+                    sc.bind.setdefault("dn", AMBIG)
+                    if sc.bind["dn"] is not AMBIG and "dn" in sc.alias:
+                        sc.bind["dn"] = AMBIG
                 elif sc.default != U[urikey]:
                     self.bind_prefix(s, "dn", U[urikey])
             else:
@@ -229,6 +246,8 @@ class RefState(object):
             raise ValueError(sp)
         return uri
 
+
+ALL_PREFIXES = ("ex", "ex_1", "ex_2", "ex_1_1", "q", "q_1", "dn", "dn_1", "bn", "zz", "foo", "ab", "p2")
 
 LOOKALIKES = {
     "ex": ("ex_1", "ex_2"),
@@ -297,6 +316,8 @@ def apply(st, op, values=None):
         _, scope, urikey = op
         enabled_scope(st, scope)
         sc = ref.sc[scope]
+        if sc.default is AMBIG:
+            raise NotEnabled("default-unknown")
         if sc.default is not None and sc.default != U[urikey]:
             raise NotEnabled("H1-default-rebinding")
         if sc.default == U[urikey] and ref.default_touched.get(scope):
@@ -402,6 +423,38 @@ def apply(st, op, values=None):
         st.ref = model
         rec.add_attributes([(st.spell(aname), val.make(st, scope))])
         _conform(rec, model.sc[scope].records[idx])
+    elif kind == "addrec":
+        _, tscope, sscope, idx = op
+        enabled_scope(st, tscope)
+        enabled_scope(st, sscope)
+        if tscope == sscope:
+            raise NotEnabled("same-scope")
+        src = ref.sc[sscope].records
+        if idx >= len(src):
+            raise NotEnabled("no-such-record")
+        model = _fork(ref)
+        mrec = [src[idx][0], src[idx][1], list(src[idx][2])]
+        model.sc[tscope].records.append(mrec)
+        model.received_foreign_records(tscope)
+        st.ref = model
+        rec = st.container(tscope).add_record(st.container(sscope).get_records()[idx])
+        st.last = (tscope, len(model.sc[tscope].records) - 1, rec)
+        _conform(rec, mrec)
+    elif kind == "upd":
+        _, tscope, sscope = op
+        enabled_scope(st, tscope)
+        enabled_scope(st, sscope)
+        if tscope == sscope or sscope == "D":
+            raise NotEnabled("update-source")
+        if not ref.sc[sscope].records:
+            raise NotEnabled("empty-source")
+        model = _fork(ref)
+        for r in ref.sc[sscope].records:
+            model.sc[tscope].records.append([r[0], r[1], list(r[2])])
+        model.received_foreign_records(tscope)
+        st.ref = model
+        st.container(tscope).update(st.container(sscope))
+        st.last = None
     else:
         raise ValueError("unknown op %r" % (op,))
 
@@ -493,7 +546,7 @@ def canon(st):
         ref = st.ref
         key.append(tuple(sorted(
             (s, tuple(sorted((p, "?" if u is AMBIG else u) for p, u in sc.bind.items())),
-             tuple(sorted(sc.alias)), tuple(sorted(sc.reg)), sc.default)
+             tuple(sorted(sc.alias)), tuple(sorted(sc.reg)), "?" if sc.default is AMBIG else sc.default)
             for s, sc in ref.sc.items())))
         key.append(tuple(sorted(ref.default_touched.items())))
         return repr(key)
@@ -554,6 +607,10 @@ def render(alphabet, hist, values=None):
                     scope, rkind, ", ".join(call), "None" if idname is None else sp(idname)))
         elif k == "at":
             lines.append("r.add_attributes([(%s, %s)])" % (sp(op[1]), values[op[2]].source))
+        elif k == "addrec":
+            lines.append("r = c[%r].add_record(c[%r].get_records()[%d])" % (op[1], op[2], op[3]))
+        elif k == "upd":
+            lines.append("c[%r].update(c[%r])" % (op[1], op[2]))
         else:
             lines.append("# op %r" % (op,))
     return "\n".join(lines)
